@@ -395,11 +395,12 @@ class Check:
         ev = {'property_id': self.pid, 'tier': self.tier, 'seed': self.seed, 'level': self.level,
               'coverage': cov, 'assumptions': self.assumptions, 'wall_s': round(time.time() - self.t0, 2),
               'violations': len(self.violations), 'known_findings_reported': self.known}
-        os.makedirs(os.path.join(ROOT, 'evidence'), exist_ok=True)
-        tmp = os.path.join(ROOT, 'evidence', '.%s.json.tmp' % self.pid)
+        evdir = os.environ.get('HEX_EVIDENCE_DIR') or os.path.join(ROOT, 'evidence')   # (seeded-change runs write elsewhere)
+        os.makedirs(evdir, exist_ok=True)
+        tmp = os.path.join(evdir, '.%s.json.tmp' % self.pid)
         with open(tmp, 'w') as f:
             json.dump(ev, f, indent=1, default=str)
-        os.rename(tmp, os.path.join(ROOT, 'evidence', '%s.json' % self.pid))
+        os.rename(tmp, os.path.join(evdir, '%s.json' % self.pid))
         self.log('done: %d violation(s), %d known finding(s), %d evaluations' % (len(self.violations), len(self.known), cov['evaluations']))
         cleanup()
         sys.exit(1 if self.violations else 0)
